@@ -149,10 +149,18 @@ theorem html_attr_values_fold_doc (c : Ctx) (e : Elem) (as bs : List Attr) (a p 
       · cases hm : c.nsGet p with
         | none => rw [mav_unmapped hsn _ a p hp hs hm, mav_unmapped hsn _ a p hp hs hm]
         | some u =>
-          rw [mav_ns hsn _ a p u hp hs hm, mav_ns hsn _ a p u hp hs hm]
-          refine key _ _ ?_
-          rintro x y ⟨_, h2, h3, _⟩
-          simp [h2, hloc x y h3]
+          by_cases hu : u = []
+          · -- a prefix mapped to `''` (fix 3a64a82): whole-key comparison, as for `[a]`
+            subst hu
+            rw [mav_ns_empty hsn _ a p hp hs hm, mav_ns_empty hsn _ a p hp hs hm]
+            refine key _ _ ?_
+            rintro x y ⟨h1, _, _, _⟩
+            have h1' : lower x.key = lower y.key := h1
+            simp [nameEq, hx, h1']
+          · rw [mav_ns hsn _ a p u hp hs hm hu, mav_ns hsn _ a p u hp hs hm hu]
+            refine key _ _ ?_
+            rintro x y ⟨_, h2, h3, _⟩
+            simp [h2, hloc x y h3]
 
 theorem html_attr_name_fold_doc (c : Ctx) (e : Elem) (as bs : List Attr) (a p : Str)
     (hx : c.isXml = false)
@@ -174,13 +182,14 @@ theorem name_of_values {c : Ctx} {e : Elem} {a p : Str} {P : Attr → Bool}
     matchAttributeName c e a p = (e.attrs.find? P).map (fun x => normalizeValue x.val) := by
   rw [matchAttributeName_eq_head?, h, List.head?_map, List.head?_filter]
 
-/-- XML, namespace branch (`[ns|a]`, `ns ↦ u`): URI and local name are compared with `=`. -/
+/-- XML, namespace branch (`[ns|a]`, `ns ↦ u`, `u ≠ ''`): URI and local name are compared with `=`.
+    (`u ≠ []` since fix 3a64a82; the empty URI is `xml_attr_values_empty_exact`.) -/
 theorem xml_attr_values_exact (c : Ctx) (e : Elem) (a p u : Str) (hx : c.isXml = true)
-    (hp : p ≠ []) (hs : p ≠ "*".toStr) (hm : c.nsGet p = some u) :
+    (hp : p ≠ []) (hs : p ≠ "*".toStr) (hm : c.nsGet p = some u) (hu : u ≠ []) :
     matchAttributeValues c e a p =
       (e.attrs.filter (fun x => x.kns == some u && x.kname == some a)).map
         (fun x => normalizeValue x.val) := by
-  rw [mav_ns (supportsNamespaces_of_xml hx) e a p u hp hs hm]
+  rw [mav_ns (supportsNamespaces_of_xml hx) e a p u hp hs hm hu]
   congr 1
   apply List.filter_congr
   intro x _
@@ -190,11 +199,29 @@ theorem xml_attr_values_exact (c : Ctx) (e : Elem) (a p u : Str) (hx : c.isXml =
   | some nm => simp [nameEq_xml hx, str_beq_comm a nm]
 
 theorem xml_attr_name_exact (c : Ctx) (e : Elem) (a p u : Str) (hx : c.isXml = true)
-    (hp : p ≠ []) (hs : p ≠ "*".toStr) (hm : c.nsGet p = some u) :
+    (hp : p ≠ []) (hs : p ≠ "*".toStr) (hm : c.nsGet p = some u) (hu : u ≠ []) :
     matchAttributeName c e a p =
       (e.attrs.find? (fun x => x.kns == some u && x.kname == some a)).map
         (fun x => normalizeValue x.val) :=
-  name_of_values (xml_attr_values_exact c e a p u hx hp hs hm)
+  name_of_values (xml_attr_values_exact c e a p u hx hp hs hm hu)
+
+/-- NEW (fix 3a64a82).  XML, `[ns|a]` with `ns ↦ ''`: the whole key is compared with `=`, as for `[a]`. -/
+theorem xml_attr_values_empty_exact (c : Ctx) (e : Elem) (a p : Str) (hx : c.isXml = true)
+    (hp : p ≠ []) (hs : p ≠ "*".toStr) (hm : c.nsGet p = some []) :
+    matchAttributeValues c e a p =
+      (e.attrs.filter (fun x => x.key == a)).map (fun x => normalizeValue x.val) := by
+  rw [mav_ns_empty (supportsNamespaces_of_xml hx) e a p hp hs hm]
+  congr 1
+  apply List.filter_congr
+  intro x _
+  rw [nameEq_xml hx]
+  exact str_beq_comm a x.key
+
+theorem xml_attr_name_empty_exact (c : Ctx) (e : Elem) (a p : Str) (hx : c.isXml = true)
+    (hp : p ≠ []) (hs : p ≠ "*".toStr) (hm : c.nsGet p = some []) :
+    matchAttributeName c e a p =
+      (e.attrs.find? (fun x => x.key == a)).map (fun x => normalizeValue x.val) :=
+  name_of_values (xml_attr_values_empty_exact c e a p hx hp hs hm)
 
 /-- XML, `[a]`: the whole key is compared with `=`. -/
 theorem xml_attr_values_bare_exact (c : Ctx) (e : Elem) (a : Str) (hx : c.isXml = true) :
